@@ -384,12 +384,14 @@ class ClassUtils:
         for items in grouped.values():
             total = len(items)
             if total == 2 and not items[0].is_enumeration:
-                cls.rename_attribute_by_preference(*items)
+                change = cls.rename_attribute_by_preference(*items)
+                reserved = {x.slug for x in target.attrs if x is not change}
+                change.name = cls.unique_name(change.name, reserved)
             elif total > 1:
                 cls.rename_attributes_by_index(target.attrs, items)
 
     @classmethod
-    def rename_attribute_by_preference(cls, a: Attr, b: Attr):
+    def rename_attribute_by_preference(cls, a: Attr, b: Attr) -> Attr:
         """Decide and rename one of the two given attributes.
 
         When both attributes are derived from the same xs:tag and one of
@@ -403,6 +405,9 @@ class ClassUtils:
         Args:
             a: The first attr instance
             b: The second attr instance
+
+        Returns:
+            The renamed attr instance
         """
         if a.tag == b.tag and (a.namespace or b.namespace):
             change = b if b.namespace else a
@@ -411,6 +416,8 @@ class ClassUtils:
         else:
             change = b if b.is_attribute else a
             change.name = f"{change.name}_{change.tag}"
+
+        return change
 
     @classmethod
     def rename_attributes_by_index(cls, attrs: list[Attr], rename: list[Attr]):
